@@ -14,7 +14,7 @@ RULE = ('trees parse(src) of G1 programs (all node kinds; optional parts present
         'exactly what Walker().walk yields, each once (by identity), each after its parent and before its own '
         'descendants (pre-order: a node\'s descendants are contiguous after it), identically on repeated walks and '
         'from a fresh Walker, through the module-level walk() and when a condition is passed to walk (documented as ignored), also when two traversals of one Walker object are interleaved or nested; filter(tree, c) == [n for n in walk(tree) if c(n)] for generated predicates; '
-        'extract(tree, c, skip=k) returns the k-th match or raises TypeError exactly when there is none. '
+        'extract(tree, c, skip=k) returns the k-th match or raises TypeError exactly when there is none - also through one Walker object and condition functions shared by every tree of the shard. '
         'non-trivial = tree with >= 10 nodes and >= 5 kinds; distinct by source text')
 ASSUMPTIONS = ['attached Comments nodes are metadata (children() is about syntactic sub-nodes); their reachability is '
                'reported, not judged', 'sibling order is reported, not judged (the statement does not fix it)']
@@ -172,6 +172,56 @@ def check_tree(acc, opens, src, tree, preds):
     return walked
 
 
+# one Walker object and a few condition functions that live as long as the process: every tree of a shard
+# goes through them (trees come and go, their ids get reused)
+_SHARED = {}
+
+
+def _p_all(n):
+    return True
+
+
+def _p_ident(n):
+    return type(n).__name__ == 'Identifier'
+
+
+def _p_has_op(n):
+    return hasattr(n, 'op')
+
+
+def _p_none(n):
+    return False
+
+
+LONG_LIVED = [('all', _p_all), ('identifier', _p_ident), ('has op', _p_has_op), ('none', _p_none)]
+
+
+def check_shared_walker(acc, opens, case, tree, walked):
+    from calmjs.parse.walkers import Walker
+    if 'w' not in _SHARED:
+        _SHARED['w'] = Walker()
+    w = _SHARED['w']
+    for name, pred in LONG_LIVED:
+        expect = [n for n in walked if pred(n)]
+        if [id(n) for n in w.filter(tree, pred)] != [id(n) for n in expect]:
+            acc.fail(None, dict(case, predicate=name), {'bucket': 'shared_walker_filter_differs', 'predicate': name}, opens)
+            return False
+        for k in sorted(set([0, len(expect) - 1, len(expect)])):
+            if k < 0:
+                continue
+            try:
+                r = w.extract(tree, pred, skip=k)
+                ok = k < len(expect) and r is expect[k]
+            except TypeError:
+                ok = k >= len(expect)
+            if not ok:
+                acc.fail(None, dict(case, predicate=name, skip=k),
+                         {'bucket': 'shared_walker_extract_wrong', 'predicate': name, 'skip': k,
+                          'matches': len(expect)}, opens)
+                return False
+    return True
+
+
 def make_preds(kinds_choice, value_choice):
     preds = []
     ks = frozenset(kinds_choice)
@@ -231,6 +281,8 @@ def run_shard(shard):
             acc.case(src, False)
             return
         walked = check_tree(acc, opens, src, c[1], make_preds(kinds_choice, value_choice))
+        if walked and not acc.failures:
+            check_shared_walker(acc, opens, {'text': src}, c[1], walked)
         kinds = set(type(n).__name__ for n in walked)
         acc.case(src, len(walked) >= 10 and len(kinds) >= 5, {'text': src, 'nodes': len(walked)})
         for k in kinds:
